@@ -12,18 +12,20 @@ import (
 	"github.com/sharedcode/sop"
 	"github.com/sharedcode/sop/encoding"
 	"github.com/sharedcode/sop/fs"
+
+	"verif/harness/hx"
 )
 
 // C24: handle codec and block layout. K1 value-level differential + direct oracle.
 
-func init() { runners["c24"] = runC24 }
+func main() { hx.Main("c24", runC24) }
 
 func coqHandle(h sop.Handle) string {
-	return fmt.Sprintf("(mkHandle %s %s %s %s %s %s %s)", coqBytes(h.LogicalID[:]), coqBytes(h.PhysicalIDA[:]), coqBytes(h.PhysicalIDB[:]),
-		coqBool(h.IsActiveIDB), coqZ(int64(h.Version)), coqZ(h.WorkInProgressTimestamp), coqBool(h.IsDeleted))
+	return fmt.Sprintf("(mkHandle %s %s %s %s %s %s %s)", hx.CoqBytes(h.LogicalID[:]), hx.CoqBytes(h.PhysicalIDA[:]), hx.CoqBytes(h.PhysicalIDB[:]),
+		hx.CoqBool(h.IsActiveIDB), hx.CoqZ(int64(h.Version)), hx.CoqZ(h.WorkInProgressTimestamp), hx.CoqBool(h.IsDeleted))
 }
 
-func genUUID(r *Rng) sop.UUID {
+func genUUID(r *hx.Rng) sop.UUID {
 	var u sop.UUID
 	switch r.Intn(6) {
 	case 0: // nil
@@ -42,15 +44,15 @@ func genUUID(r *Rng) sop.UUID {
 var edge32 = []int32{0, 1, -1, math.MaxInt32, math.MinInt32, 255, 256, -256, 65535, 1 << 24}
 var edge64 = []int64{0, 1, -1, math.MaxInt64, math.MinInt64, 255, 256, 1 << 32, -(1 << 32), 1 << 56, 1700000000000}
 
-func genHandle(r *Rng) sop.Handle {
+func genHandle(r *hx.Rng) sop.Handle {
 	h := sop.Handle{LogicalID: genUUID(r), PhysicalIDA: genUUID(r), PhysicalIDB: genUUID(r), IsActiveIDB: r.Bool(), IsDeleted: r.Bool()}
 	if r.Chance(50) {
-		h.Version = Pick(r, edge32)
+		h.Version = hx.Pick(r, edge32)
 	} else {
 		h.Version = int32(r.U64())
 	}
 	if r.Chance(50) {
-		h.WorkInProgressTimestamp = Pick(r, edge64)
+		h.WorkInProgressTimestamp = hx.Pick(r, edge64)
 	} else {
 		h.WorkInProgressTimestamp = int64(r.U64())
 	}
@@ -58,12 +60,12 @@ func genHandle(r *Rng) sop.Handle {
 }
 
 type c24Input struct {
-	Kind    string `json:"kind"`
+	Kind    string      `json:"kind"`
 	Handle  *sop.Handle `json:"handle,omitempty"`
-	Bytes   []int  `json:"bytes,omitempty"`
-	HashMod int    `json:"hash_mod,omitempty"`
-	ID      []int  `json:"id,omitempty"`
-	Slot    int    `json:"slot,omitempty"`
+	Bytes   []int       `json:"bytes,omitempty"`
+	HashMod int         `json:"hash_mod,omitempty"`
+	ID      []int       `json:"id,omitempty"`
+	Slot    int         `json:"slot,omitempty"`
 }
 
 func ints(b []byte) []int {
@@ -92,7 +94,7 @@ func decodeSafe(b []byte) (h sop.Handle, ok bool) {
 	return h, err == nil
 }
 
-func c24Encode(res *Result, h sop.Handle) {
+func c24Encode(res *hx.Result, h sop.Handle) {
 	m := encoding.NewHandleMarshaler()
 	b, err := m.Marshal(h, make([]byte, 0, sop.HandleSizeInBytes))
 	in := c24Input{Kind: "enc", Handle: &h}
@@ -112,11 +114,11 @@ func c24Encode(res *Result, h sop.Handle) {
 	if h2, ok := decodeSafe(b); !ok || h2 != h {
 		res.Fail("roundtrip", fmt.Sprintf("decode(encode(h)) = %+v ok=%v, want %+v", h2, ok, h), in)
 	}
-	res.AddCase(fmt.Sprintf("EncCase %s %s", coqHandle(h), coqBytes(b)), in)
+	res.AddCase(fmt.Sprintf("EncCase %s %s", coqHandle(h), hx.CoqBytes(b)), in)
 	res.Sample(map[string]any{"kind": "enc", "handle": h, "bytes_hex": fmt.Sprintf("%x", b)})
 }
 
-func c24Decode(res *Result, b []byte) {
+func c24Decode(res *hx.Result, b []byte) {
 	h, ok := decodeSafe(b)
 	in := c24Input{Kind: "dec", Bytes: ints(b)}
 	res.Seen(fmt.Sprintf("dec:%x", b), len(b) == sop.HandleSizeInBytes)
@@ -125,10 +127,10 @@ func c24Decode(res *Result, b []byte) {
 	} else {
 		res.Count("dec.error")
 	}
-	res.AddCase(fmt.Sprintf("DecCase %s %s", coqBytes(b), coqOpt(coqHandle(h), ok)), in)
+	res.AddCase(fmt.Sprintf("DecCase %s %s", hx.CoqBytes(b), hx.CoqOpt(coqHandle(h), ok)), in)
 }
 
-func c24Offsets(res *Result, hashMod int, id sop.UUID) {
+func c24Offsets(res *hx.Result, hashMod int, id sop.UUID) {
 	bo, ho := fs.VerifBlockOffsets(hashMod, id)
 	hi, lo := id.Split()
 	in := c24Input{Kind: "off", HashMod: hashMod, ID: ints(id[:])}
@@ -139,13 +141,13 @@ func c24Offsets(res *Result, hashMod int, id sop.UUID) {
 	if ho < 0 || ho%S != 0 || ho+S > B-4 || bo < 0 || bo%B != 0 || bo >= int64(hashMod)*B {
 		res.Fail("offset-range", fmt.Sprintf("hashMod=%d id=%x block=%d slot=%d", hashMod, id[:], bo, ho), in)
 	}
-	res.AddCase(fmt.Sprintf("OffCase %s %s %s %s", coqZ(int64(hashMod)), coqBytes(id[:]), coqZ(bo), coqZ(ho)), in)
+	res.AddCase(fmt.Sprintf("OffCase %s %s %s %s", hx.CoqZ(int64(hashMod)), hx.CoqBytes(id[:]), hx.CoqZ(bo), hx.CoqZ(ho)), in)
 }
 
 // c24Write: write an encoded handle into slot i of a random block the way
 // writeBlockRegionPayload does (copy + marshalData), compare against the model
 // and check locality directly.
-func c24Write(res *Result, r *Rng, h sop.Handle, slot int) {
+func c24Write(res *hx.Result, r *hx.Rng, h sop.Handle, slot int) {
 	B := fs.VerifBlockSize
 	S := sop.HandleSizeInBytes
 	block := make([]byte, B)
@@ -181,12 +183,12 @@ func c24Write(res *Result, r *Rng, h sop.Handle, slot int) {
 		res.Fail("crc-position", "written block does not validate: "+err.Error(), in)
 	}
 	// correspondence: only the touched slot and the crc are sent (keeps cases.v small)
-	res.AddCase(fmt.Sprintf("WriteCase %s %s %s %s %s", coqZ(int64(slot)), coqHandle(h), coqBytes(block[slot*S:slot*S+S]),
-		coqZ(int64(B-4)), coqN(uint64(wantCRC))+" "+coqBytes(block[B-4:])), in)
+	res.AddCase(fmt.Sprintf("WriteCase %s %s %s %s %s", hx.CoqZ(int64(slot)), coqHandle(h), hx.CoqBytes(block[slot*S:slot*S+S]),
+		hx.CoqZ(int64(B-4)), hx.CoqN(uint64(wantCRC))+" "+hx.CoqBytes(block[B-4:])), in)
 }
 
-func runC24(cfg *RunCfg) (*Result, error) {
-	res := NewResult("C24")
+func runC24(cfg *hx.RunCfg) (*hx.Result, error) {
+	res := hx.NewResult("C24")
 	res.Imports = []string{"Lib.Bytes", "Gen.HandleCodec", "Layout", "Corr.C24"}
 	res.CaseType = "c24case"
 	res.Checker = "c24_check"
@@ -203,7 +205,7 @@ func runC24(cfg *RunCfg) (*Result, error) {
 			return nil, err
 		}
 		in := rp.Input
-		r := NewRng(cfg.Seed)
+		r := hx.NewRng(cfg.Seed)
 		switch in.Kind {
 		case "enc":
 			c24Encode(res, *in.Handle)
@@ -225,7 +227,7 @@ func runC24(cfg *RunCfg) (*Result, error) {
 			n = 12000
 		}
 	}
-	r := NewRng(cfg.Seed)
+	r := hx.NewRng(cfg.Seed)
 	// exhaustive edge grid first (corpus-like), then random
 	for _, v := range edge32 {
 		for _, w := range edge64 {
@@ -245,9 +247,9 @@ func runC24(cfg *RunCfg) (*Result, error) {
 			}
 			c24Decode(res, b)
 		case k < 7: // malformed stream: wrong lengths
-			c24Decode(res, r.Bytes(Pick(r, []int{0, 1, 15, 16, 17, 47, 48, 49, 52, 53, 60, 61, 63, 70, 124})))
+			c24Decode(res, r.Bytes(hx.Pick(r, []int{0, 1, 15, 16, 17, 47, 48, 49, 52, 53, 60, 61, 63, 70, 124})))
 		case k < 9:
-			c24Offsets(res, Pick(r, []int{1, 2, 3, 7, 250, 251, 750000}), genUUID(r))
+			c24Offsets(res, hx.Pick(r, []int{1, 2, 3, 7, 250, 251, 750000}), genUUID(r))
 		default:
 			c24Write(res, r, genHandle(r), r.Intn(fs.VerifHandlesPerBlock))
 		}
